@@ -19,7 +19,12 @@ use std::rc::Rc;
 use std::sync::atomic::{AtomicBool, AtomicPtr, Ordering};
 use std::sync::Arc;
 use std::time::{self, Instant};
+#[cfg(not(raindb_verif))]
 use std::{io, panic, ptr, thread};
+#[cfg(raindb_verif)]
+use raindb_verif_rt::thread;
+#[cfg(raindb_verif)]
+use std::{io, panic, ptr};
 
 use crate::batch::Batch;
 use crate::compaction::{
